@@ -37,6 +37,7 @@ REAL_VS_STUB = {
 
 KINDS = ["megacomplex", "data_io", "project_io", "base_class", "base_inst"]
 SHORTS = ["fmt", "alt", "yaml", "a.b"]
+CASED = ["DAT", "Fmt"]  # registries are case-sensitive; so must format inference be
 CLASSES = [("vp_a", "P1"), ("vp_a", "P2"), ("vp_b", "P1"), ("vp_b", "P3"), ("vp_c.sub", "P1")]
 
 
@@ -50,13 +51,16 @@ def gen_op(rng: random.Random, kind: str) -> dict:
     inst = kind in ("data_io", "project_io", "base_inst")
     if r < 0.34:
         nkeys = rng.choice([1, 1, 2, 3]) if inst else 1
-        keys = [rng.choice(SHORTS[:3]) if rng.random() < 0.93 else "a.b" for _ in range(nkeys)]
+        keys = [
+            (rng.choice(SHORTS[:3]) if rng.random() < 0.85 else rng.choice(CASED)) if rng.random() < 0.93 else "a.b"
+            for _ in range(nkeys)
+        ]
         op = {"op": "REG", "keys": keys, "cls": rng.randrange(len(CLASSES))}
         if inst and rng.random() < 0.12:
             op["ctor_raises_at"] = rng.randrange(nkeys)
         return op
     if r < 0.50:
-        target = rng.choice(["known", "known", "known", "unknown", "short_as_full"])
+        target = rng.choice(["known", "known", "known", "plain", "plain", "unknown", "short_as_full"])
         return {
             "op": "SET",
             "key": rng.choice(SHORTS),
@@ -67,8 +71,8 @@ def gen_op(rng: random.Random, kind: str) -> dict:
     if r < 0.72:
         return {
             "op": "GET",
-            "by": rng.choice(["short", "short", "full", "unknown"]),
-            "key": rng.choice(SHORTS[:3]),
+            "by": rng.choice(["short", "short", "full", "plain", "unknown"]),
+            "key": rng.choice(SHORTS[:3] + CASED),
             "cls": rng.randrange(len(CLASSES)),
             "fmt": rng.choice(SHORTS[:3]),
         }
@@ -80,8 +84,8 @@ def gen_op(rng: random.Random, kind: str) -> dict:
         "op": "DISPATCH",
         "fn": rng.choice(["load", "save"]),
         "what": rng.choice(["dataset", "model", "parameters", "scheme", "result"]),
-        "ext": rng.choice(["fmt", "alt", "yml", "yaml", "zzz"]),
-        "explicit": rng.choice([None, None, "fmt", "alt", "yaml", "nope"]),
+        "ext": rng.choice(["fmt", "alt", "yml", "yaml", "zzz", "DAT", "Fmt", "YML"]),
+        "explicit": rng.choice([None, None, None, "fmt", "alt", "yaml", "nope", "DAT"]),
     }
 
 
@@ -105,6 +109,8 @@ def reduced_alphabet(kind: str) -> list[dict]:
     ops.append({"op": "SET", "key": "fmt", "target": "unknown", "cls": 0, "fmt": "fmt"})
     ops.append({"op": "GET", "by": "short", "key": "fmt", "cls": 0, "fmt": "fmt"})
     ops.append({"op": "GET", "by": "full", "key": "fmt", "cls": 1, "fmt": "fmt"})
+    ops.append({"op": "SET", "key": "fmt", "target": "plain", "cls": 1, "fmt": "fmt"})
+    ops.append({"op": "GET", "by": "plain", "key": "fmt", "cls": 2, "fmt": "fmt"})
     return ops
 
 
@@ -257,7 +263,7 @@ class Model:
             if v[0] == "exact":
                 o = v[1]
                 return (idx[o], None) if isinstance(o, type) else (idx[type(o)], o.format)
-            return (idx[v[1]], v[2])
+            return (idx[v[1]], v[2] if v[0] == "loose" else "*")
 
         return core.digest([sorted((k, ab(v)) for k, v in self.short.items()), sorted(self.full)])
 
@@ -265,6 +271,8 @@ class Model:
     def matches(v, plugin) -> bool:
         if v[0] == "exact":
             return plugin is v[1]
+        if v[0] == "anyfmt":
+            return type(plugin) is v[1]
         return type(plugin) is v[1] and getattr(plugin, "format", None) == v[2]
 
     @staticmethod
@@ -272,7 +280,7 @@ class Model:
         if v[0] == "exact":
             o = v[1]
             return full_name(o if isinstance(o, type) else type(o))
-        return full_name(v[1])
+        return full_name(v[1])  # loose / anyfmt
 
 
 # ---------------------------------------------------------------------------
@@ -293,7 +301,7 @@ class Run:
         from glotaran.testing.plugin_system import monkeypatch_plugin_registry
 
         os.makedirs(self.sandbox, exist_ok=True)
-        for ext in ("fmt", "alt", "yml", "yaml", "zzz"):
+        for ext in ("fmt", "alt", "yml", "yaml", "zzz", "DAT", "Fmt", "YML"):
             with open(os.path.join(self.sandbox, f"x.{ext}"), "w") as f:
                 f.write("x")
         try:
@@ -421,6 +429,9 @@ class Run:
                 if key not in model.short:
                     model.short[key] = plugin
                 else:
+                    # the newcomer lost the short name: it must be reachable under full_plugin_name(newcomer),
+                    # the name the PluginOverwriteWarning tells the user to pass to set_*_plugin
+                    model.full[full_name(cls)] = ("anyfmt", cls) if inst else plugin
                     if Model.fullname_of(model.short[key]) != full_name(cls):
                         self.expected_warnings += 1
                         self.conflict_seen = True
@@ -437,6 +448,11 @@ class Run:
             cls = classes[op["cls"]]
             if op["target"] == "known":
                 target = f"{full_name(cls)}_{op['fmt']}" if inst else full_name(cls)
+            elif op["target"] == "plain":
+                target = full_name(cls)
+                if inst and target not in model.full:
+                    # without an earlier conflict the statement does not say whether the identifier-less name exists
+                    return None
             elif op["target"] == "unknown":
                 target = "nope.Missing"
             else:
@@ -472,6 +488,11 @@ class Run:
             elif op["by"] == "full":
                 lookup = f"{full_name(cls)}_{op['fmt']}" if inst else full_name(cls)
                 want = model.full.get(lookup)
+            elif op["by"] == "plain":
+                lookup = full_name(cls)
+                want = model.full.get(lookup)
+                if inst and want is None:
+                    return None  # not fixed by the statement (see SET)
             else:
                 lookup, want = "no_such_name", None
             err = got = None
@@ -597,6 +618,8 @@ class Run:
     def describe_model(v):
         if v[0] == "exact":
             return "exactly " + Run.describe(v[1])
+        if v[0] == "anyfmt":
+            return f"an instance of {full_name(v[1])}"
         return f"an instance of {full_name(v[1])} with format {v[2]!r}"
 
 
